@@ -18,17 +18,24 @@ namespace Koda
 inductive DVar
   | keyU | validator | keyRequired | successDict | errs | success | newVal | result
   | args | obj | asyncResult                 -- RecordValidator
+  | coerced | coercedVal                     -- the class-based record validators
 deriving DecidableEq, Repr, Inhabited
 
 inductive DSelf
   | disallowSync | cls | failOnUnknownKeys | keysSet | unknownKeysErr | fastKeysSync | fastKeysAsync
   | validateObject | validateObjectAsync
   | into                                     -- RecordValidator
+  | coerce
   | other (name : String)
+deriving DecidableEq, Repr, Inhabited
+
+inductive DAttr | isJust | valA | compatibleTypes | other (name : String)
 deriving DecidableEq, Repr, Inhabited
 
 inductive DExp
   | var (v : DVar)
+  | attr (e : DExp) (a : DAttr)
+  | mkCoercionErr (compat dest : DExp)
   | self
   | data                                     -- the parameter `data`
   | selfAttr (a : DSelf)
@@ -81,6 +88,9 @@ structure DictAnyCfg where
   /-- RecordValidator: the target constructor and its identity -/
   into : List PyVal → PyVal := fun _ => .none
   intoId : Nat := 0
+  /-- the class-based record validators: the coercer, the target class -/
+  coerce : Option CoerceK := none
+  cls : ClassId := default
 
 inductive AV
   | py (v : PyVal)
@@ -104,6 +114,9 @@ inductive AV
   | payloadList (ws : List PyVal)              -- `args`
   | built (v : PyVal)                          -- `obj = self.into(*args)`
   | intoFn
+  | coercer (c : CoerceK)
+  | maybe (m : Option PyVal)
+  | tys (ts : List Ty)
 deriving Inhabited
 
 structure DEnv where
@@ -118,11 +131,14 @@ structure DEnv where
   args : AV := .none
   obj : AV := .none
   asyncResult : AV := .none
+  coerced : AV := .none
+  coercedVal : AV := .none
 
 def DEnv.get (e : DEnv) : DVar → AV
   | .keyU => e.keyU | .validator => e.validator | .keyRequired => e.keyRequired | .successDict => e.successDict
   | .errs => e.errs | .success => e.success | .newVal => e.newVal | .result => e.result
   | .args => e.args | .obj => e.obj | .asyncResult => e.asyncResult
+  | .coerced => e.coerced | .coercedVal => e.coercedVal
 
 def DEnv.set (e : DEnv) (v : DVar) (d : AV) : DEnv :=
   match v with
@@ -130,6 +146,7 @@ def DEnv.set (e : DEnv) (v : DVar) (d : AV) : DEnv :=
   | .successDict => { e with successDict := d } | .errs => { e with errs := d } | .success => { e with success := d }
   | .newVal => { e with newVal := d } | .result => { e with result := d }
   | .args => { e with args := d } | .obj => { e with obj := d } | .asyncResult => { e with asyncResult := d }
+  | .coerced => { e with coerced := d } | .coercedVal => { e with coercedVal := d }
 
 inductive DErr
   | exn (e : Exn)
@@ -149,6 +166,7 @@ def dtruthy : AV → Option Bool
   | .objCheck _ => some true
   | .aobjCheck _ => some true
   | .customErr _ => some true
+  | .coercer _ => some true
   | .dictPayload kvs => some (!kvs.isEmpty)
   | .keyErrs es => some (!es.isEmpty)
   | _ => Option.none
@@ -165,7 +183,21 @@ def dselfAttr (cfg : DictAnyCfg) : DSelf → Option AV
   | .validateObject => some (match cfg.oc with | some c => .objCheck c | none => .none)
   | .validateObjectAsync => some (match cfg.aoc with | some c => .aobjCheck c | none => .none)
   | .into => some .intoFn
+  | .coerce => some (match cfg.coerce with | some c => .coercer c | none => .none)
   | .other _ => Option.none
+
+/-- calling the record's coercer (target and destination type `dict`; no default coercer exists for dicts, so the
+    oracle of the stdlib parsers plays no part) -/
+def callDictCoercer (cls : ClassId) (c : CoerceK) (x : PyVal) : Option PyVal × List Ev :=
+  match applyCoerce default .dict .dict cls c x with
+  | .acc y t => (some y, t)
+  | .rej _ t => (none, t)
+  | .exn _ t => (none, t)
+
+def dictCompat (cls : ClassId) : CoerceK → List Ty
+  | .dflt => defaultCompat .dict
+  | .classOnly => [.cls cls]
+  | .user _ compat _ => compat
 
 inductive DFlow
   | next (st : DSt)
@@ -195,6 +227,25 @@ def DExp.eval (cfg : DictAnyCfg) (x : PyVal) (st : DSt) : DExp → DM AV
     match e.eval cfg x st with
     | .error err => .error err
     | .ok (d, st) => .ok (d, { st with env := st.env.set v d })
+  | .attr e a =>
+    match e.eval cfg x st with
+    | .error err => .error err
+    | .ok (d, st) =>
+      (match d, a with
+       | .maybe m, .isJust => .ok (.bool m.isSome, st)
+       | .maybe (some y), .valA => .ok (.py y, st)
+       | .coercer c, .compatibleTypes => .ok (.tys (dictCompat cfg.cls c), st)
+       | _, _ => .error (.stuck "attribute", st.tr))
+  | .mkCoercionErr compat dest =>
+    match compat.eval cfg x st with
+    | .error err => .error err
+    | .ok (cd, st) =>
+      match dest.eval cfg x st with
+      | .error err => .error err
+      | .ok (dd, st) =>
+        (match cd, dd with
+         | .tys ts, .tyName ty => .ok (.errK (.coercion ts ty), st)
+         | _, _ => .error (.stuck "CoercionErr", st.tr))
   | .call1 f a =>
     match f.eval cfg x st with
     | .error err => .error err
@@ -203,6 +254,9 @@ def DExp.eval (cfg : DictAnyCfg) (x : PyVal) (st : DSt) : DExp → DM AV
       | .error err => .error err
       | .ok (ad, st) =>
         match fd, ad with
+        | .coercer c, .py y =>
+          let r := callDictCoercer cfg.cls c y
+          .ok (.maybe r.1, { st with tr := st.tr ++ r.2 })
         | .fieldV ev, .py y =>
           (match ev y with
            | Option.none => .error (.diverge, st.tr)
